@@ -282,6 +282,43 @@ def run(unit):
                     exp = 'ok' if ptype in a else 'TypeError'
                     if got != exp:
                         r.violation('narrowing an operand to a parameter type does not follow the intersection', {'op': 'expr-cast', 'node': pname, 'a': _w(a), 'b': ptype}, f'{pname} around a field typed {_w(a)}: expected {exp}, got {got}', size=len(a))
+            # two operands of = / != are narrowed to their common type set; three occurrences of one reference in a
+            # predicate must share a base type (the intersection of all three, not only of neighbours)
+            prim = [(i, M[i]) for i in range(1, 128) if M[i] <= frozenset(('BOOL', 'NUMBER', 'STRING'))]
+
+            def fld(name, i):
+                return A.HplFieldAccess(A.HplThisMessage(), name).cast(I[i])
+
+            for i1, a in prim:
+                for i2, b in prim:
+                    for op in ('=', '!='):
+                        r.count('evaluations')
+                        try:
+                            node = A.HplBinaryOperator(op, fld('fa', i1), fld('fb', i2))
+                            got = ('ok', to_model(node.operand1.data_type), to_model(node.operand2.data_type))
+                        except TypeError:
+                            got = ('TypeError',)
+                        except Exception as e:  # noqa: BLE001
+                            got = ('raised ' + type(e).__name__,)
+                        exp = ('ok', a & b, a & b) if a & b else ('TypeError',)
+                        if got != exp:
+                            r.violation('operands of = / != are not both narrowed to the intersection', {'op': 'expr-cast', 'node': op, 'a': _w(a), 'b': _w(b)}, f'{_w(a)} {op} {_w(b)}: expected {exp}, got {got}', size=len(a) + len(b))
+            for i1, a in prim:
+                for i2, b in prim:
+                    for i3, c in prim:
+                        r.count('evaluations')
+                        try:
+                            occ = [A.HplFunctionCall('bool', (fld('fa', k),)) for k in (i1, i2, i3)]
+                            A.HplPredicateExpression(A.HplBinaryOperator('and', A.HplBinaryOperator('and', occ[0], occ[1]), occ[2]))
+                            got = 'ok'
+                        except TypeError:
+                            got = 'TypeError'
+                        except Exception as e:  # noqa: BLE001
+                            got = 'raised ' + type(e).__name__
+                        exp = 'ok' if a & b & c else 'TypeError'
+                        if got != exp:
+                            r.violation('occurrences of one reference in a predicate are not required to share a base type', {'op': 'expr-cast', 'node': 'predicate', 'a': _w(a), 'b': _w(b) + ' ' + _w(c)},
+                                        f'fa used at {_w(a)}, {_w(b)}, {_w(c)}: expected {exp}, got {got}', size=len(a) + len(b) + len(c))
             lits = {'NUMBER': ('1', 1), 'BOOL': ('True', True), 'STRING': ('"a"', '"a"')}
             uses = {'NUMBER': lambda v: A.HplBinaryOperator('>', v, A.HplLiteral('0', 0)), 'BOOL': lambda v: A.HplUnaryOperator('not', v), 'STRING': lambda v: A.HplBinaryOperator('=', v, A.HplLiteral('"b"', '"b"'))}
             tokens = {'NUMBER': HT.FLOAT64, 'BOOL': HT.BOOLEANS, 'STRING': HT.STRINGS}
@@ -468,7 +505,7 @@ def describe(tier):
         'rule': 'all 128 type sets; every ordered pair (cast, can_be, union); the seven can_be_* and derived members'
         + '; every triple for associativity / union of three; 24 x 24 pairs of named members, complements and unions each cast in a fresh interpreter (nothing materialised beforehand); long families (all non-empty subsets of every 2-4 base types, chains) for union'
         + '; union over 12 container kinds (list, tuple, iterator, generator, set, frozenset, dict, dict views, deque, reversed, map) x 128 sets x 4 family shapes'
-        + '; HplExpression.cast and can_be on field / variable / index nodes carrying every type set such a node can carry x all 128 targets; narrowing through 6 constructors, a bound variable and a schema check'
+        + '; HplExpression.cast and can_be on field / variable / index nodes carrying every type set such a node can carry x all 128 targets; narrowing through 6 constructors, a bound variable and a schema check; the two operands of = / != over every pair of sets of primitives; three occurrences of one reference in a predicate over every triple'
         + '. A state is one tuple of type sets; a transition one call of the real DataType API; non-trivial = every tuple (all are distinct).',
         'bounds': {'type_sets': 128, 'tuple_arity': 3},
         'exhaustive': True,
